@@ -256,6 +256,8 @@ spif_url_parse(spif_url_t self)
     spif_charptr_t pstr, pend, ptmp;
 
     ASSERT_RVAL(!SPIF_URL_ISNULL(self), FALSE);
+    /* (A URL object created without text has nothing to parse.) */
+    REQUIRE_RVAL(!SPIF_PTR_ISNULL(s), FALSE);
     pstr = s;
 
     /* Check for "proto:" at the beginning. */
